@@ -20,21 +20,17 @@ property says (non-empty matches, position by position).
   `recover` of `parse_regexp` it never runs out of fuel (`parseRaw_ne_fuel`: the recursion always
   continues on a strictly shorter suffix — termination of the Go code), and the `recover` turns
   every index-out-of-range / explicit panic into a ParseError.  This is the regex half of C08.
-* `C14_sem_partial` — for every regex of the subset whose repeated bodies cannot match the empty
+* `C14_sem` — for every regex of the subset whose repeated bodies cannot match the empty
   string and every text without `\r` and `\f`: the backtracking specification of the translated
   tree (`Spec.findAll`, the one C01 proves the VM implements) reports the same non-empty spans in
   the same order with the same group texts as the conventional semantics.  Induction on the regex
   relating `Spec.m` to `Regex.m` (`Lemmas/RegexSem.lean`); vore's loop rule (optional iterations
   must consume, mandatory copies unrolled, the head visited once more at `max`) meets the textbook
   rule exactly under `NonNullableBodies`.
-  **Partial in one respect, a genuine defect of the engine**: `\D` is excluded (`NoNegDigit`).  At
-  the end of the text `not digit` (MATCHRANGE with `not`, searchengine.go) succeeds without
-  consuming anything, so `@/a\D/` matches `a` in `"a"`; the shared atom `Spec.rangeLoopD` mirrors
-  that, and the full statement `C14_sem_statement` is false for it.  With
-  `/verif/fixes/C14-notclass-at-eof.diff` applied and `rangeLoopD` / `classD .letter`
-  (Vore/Spec/Atoms.lean) and `matchRange` / the letter case of the VM model changed to fail on an
-  empty read, `digitD_one` (Lemmas/RegexSem.lean) holds for both polarities by the same proof and
-  the hypothesis can be dropped.
+  `\D` is included: before fix f73d71e `not digit` succeeded without consuming at the end of the text
+  (`@/a\D/` matched `a` in `"a"`) and the statement was false for it; with the fix, and the shared atom
+  `Spec.rangeLoopD` changed with it, `digitD_one` (Lemmas/RegexSem.lean) holds for both polarities and
+  `C14_sem` is the full statement `C14_sem_statement`.
 * `C14_callfree`, `C14_vm_partial`, `C14_find_command_partial` — the translated tree is call-free, so
   `C01_refines_partial` applies: the VM on the generated code of `find all @/re/` returns the matches
   of the conventional semantics, under every amount clause, and terminates.
@@ -79,70 +75,56 @@ theorem C14_total_first (p : Bytes) :
 
 /-! ## the meaning -/
 
-/-- no `\D` (see the header: `not digit` at the end of the text is a defect of the engine) -/
-def Regex.Re.noNegDigit : Re → Bool
-  | .seq a b | .alt a b => a.noNegDigit && b.noNegDigit
-  | .digit neg => !neg
-  | .group _ r | .ncgroup r | .named _ r | .rep r _ _ => r.noNegDigit
-  | _ => true
-
-def NoNegDigit (r : Re) : Prop := r.noNegDigit = true
-
-instance (r : Re) : Decidable (NoNegDigit r) := by unfold NoNegDigit; exact inferInstance
-
-theorem semOK_of : ∀ r : Re, r.sup = true → r.nnb = true → r.noNegDigit = true → r.semOK = true := by
+theorem semOK_of : ∀ r : Re, r.sup = true → r.nnb = true → r.semOK = true := by
   intro r
   induction r with
   | seq a b iha ihb =>
-    intro hs hn hd
+    intro hs hn
     simp only [Re.sup, Bool.and_eq_true] at hs
     simp only [Re.nnb, Bool.and_eq_true] at hn
-    simp only [Re.noNegDigit, Bool.and_eq_true] at hd
-    simp [Re.semOK, iha hs.1.1.2 hn.1 hd.1, ihb hs.1.2 hn.2 hd.2]
+    simp [Re.semOK, iha hs.1.1.2 hn.1, ihb hs.1.2 hn.2]
   | alt a b iha ihb =>
-    intro hs hn hd
+    intro hs hn
     simp only [Re.sup, Bool.and_eq_true] at hs
     simp only [Re.nnb, Bool.and_eq_true] at hn
-    simp only [Re.noNegDigit, Bool.and_eq_true] at hd
-    simp [Re.semOK, iha hs.1.2 hn.1 hd.1, ihb hs.2 hn.2 hd.2]
+    simp [Re.semOK, iha hs.1.2 hn.1, ihb hs.2 hn.2]
   | cls neg items =>
-    intro hs _ _
+    intro hs _
     simp only [Re.sup, Bool.and_eq_true] at hs
     simp [Re.semOK, hs.1]
-  | digit neg => intro _ _ hd; simpa [Re.semOK, Re.noNegDigit] using hd
   | group n r ih =>
-    intro hs hn hd
+    intro hs hn
     simp only [Re.sup, Bool.and_eq_true] at hs
-    exact ih hs.2 hn hd
+    exact ih hs.2 hn
   | ncgroup r ih =>
-    intro hs hn hd
+    intro hs hn
     simp only [Re.sup, Bool.and_eq_true] at hs
-    exact ih hs.2 hn hd
+    exact ih hs.2 hn
   | named nm r ih =>
-    intro hs hn hd
+    intro hs hn
     simp only [Re.sup, Bool.and_eq_true] at hs
-    exact ih hs.2 hn hd
+    exact ih hs.2 hn
   | rep r q lz ih =>
-    intro hs hn hd
+    intro hs hn
     simp only [Re.sup, Bool.and_eq_true] at hs
     simp only [Re.nnb, Bool.and_eq_true] at hn
     have hq : q.wf = true := by
       cases q <;> simp_all [Quant.wf, Quant.ok]
-    simp [Re.semOK, ih hs.1.2 hn.1 hd, hq, hn.2]
-  | _ => intro _ _ _; rfl
+    simp [Re.semOK, ih hs.1.2 hn.1, hq, hn.2]
+  | _ => intro _ _; rfl
 
-/-- **C14_sem at full strength** (false at present for `\D`, see the header) -/
+/-- **C14_sem**, the statement -/
 def C14_sem_statement : Prop :=
   ∀ (r : Re) (text : Bytes), Supported r → NonNullableBodies r → TextOK text →
     (Spec.findAll text r.toExpr).map (List.map spanOfMatch) = Regex.findAll r text
 
 /-- **C14_sem**: same non-empty spans, in the same order, groups bound to the same text —
-for every regex of the subset without `\D` whose repeated bodies cannot match the empty string and
+for every regex of the subset whose repeated bodies cannot match the empty string and
 every text without `\r` and `\f` -/
-theorem C14_sem_partial (r : Re) (text : Bytes) (hs : Supported r) (hn : NonNullableBodies r) (hd : NoNegDigit r)
+theorem C14_sem (r : Re) (text : Bytes) (hs : Supported r) (hn : NonNullableBodies r)
     (ht : TextOK text) :
     (Spec.findAll text r.toExpr).map (List.map spanOfMatch) = Regex.findAll r text :=
-  findAll_sim ht r (semOK_of r hs.2.1 hn hd)
+  findAll_sim ht r (semOK_of r hs.2.1 hn)
 
 /-- **C14_callfree**: the translation of a regex of the subset is call-free -/
 theorem C14_callfree : ∀ r : Re, r.sup = true → CallFree r.toExpr := by
@@ -166,9 +148,9 @@ theorem C14_callfree : ∀ r : Re, r.sup = true → CallFree r.toExpr := by
   | _ => intro _; simp [Re.toExpr, CallFree]
 
 /-- the conventional semantics never diverges on the property's domain -/
-theorem C14_regex_total (r : Re) (text : Bytes) (hs : Supported r) (hn : NonNullableBodies r) (hd : NoNegDigit r)
+theorem C14_regex_total (r : Re) (text : Bytes) (hs : Supported r) (hn : NonNullableBodies r)
     (ht : TextOK text) : Regex.findAll r text ≠ none := by
-  rw [← C14_sem_partial r text hs hn hd ht]
+  rw [← C14_sem r text hs hn ht]
   have := findAll_total text r.toExpr (C14_callfree r hs.2.1)
   cases h : Spec.findAll text r.toExpr with
   | none => exact absurd h this
@@ -178,13 +160,13 @@ theorem C14_regex_total (r : Re) (text : Bytes) (hs : Supported r) (hn : NonNull
 
 /-- **C14_vm**: the VM on the code generated for the translated tree returns, under every amount
 clause, the window of a match list whose spans and groups are those of the conventional semantics -/
-theorem C14_vm_partial (r : Re) (text : Bytes) (hs : Supported r) (hn : NonNullableBodies r) (hd : NoNegDigit r)
+theorem C14_vm_partial (r : Re) (text : Bytes) (hs : Supported r) (hn : NonNullableBodies r)
     (ht : TextOK text) (nid : Nat) (hne : codeLen r.toExpr ≠ 0) :
     ∃ A, Regex.findAll r text = some (A.map spanOfMatch) ∧
       ∀ pf, ∃ vf0, ∀ vf, vf0 ≤ vf → ∀ amt,
         findMatches pf vf (genCF r.toExpr 0 nid).1 amt text = some (.ok (window amt A)) := by
   obtain ⟨A, hA, hrest⟩ := C01_refines_partial text r.toExpr (C14_callfree r hs.2.1) nid hne
-  have := C14_sem_partial r text hs hn hd ht
+  have := C14_sem r text hs hn ht
   rw [hA] at this
   exact ⟨A, this.symm, hrest⟩
 
@@ -200,7 +182,7 @@ theorem findAll_seq_empty (text : Bytes) (e : Expr) : Spec.findAll text (.seq e 
 
 /-- the compiled command `find <amount> @/re/`, run by `runCmd` -/
 theorem C14_find_command_partial (r : Re) (text fn : Bytes) (amt : Amount) (hs : Supported r)
-    (hn : NonNullableBodies r) (hd : NoNegDigit r) (ht : TextOK text) (hne : codeLen r.toExpr ≠ 0)
+    (hn : NonNullableBodies r) (ht : TextOK text) (hne : codeLen r.toExpr ≠ 0)
     (st st' : GenState) (hg : st.globals = []) (c : BCmd)
     (h : genCmd (.find amt (.seq r.toExpr .empty)) st = .ok (c, st')) :
     ∃ A, Regex.findAll r text = some (A.map spanOfMatch) ∧
@@ -209,7 +191,7 @@ theorem C14_find_command_partial (r : Re) (text fn : Bytes) (amt : Amount) (hs :
   have hcl : codeLen (.seq r.toExpr .empty) ≠ 0 := by simp [codeLen, hne]
   obtain ⟨A, hA, hrest⟩ := C01_find_command text fn amt _ hcf hcl st st' hg c h
   rw [findAll_seq_empty] at hA
-  have := C14_sem_partial r text hs hn hd ht
+  have := C14_sem r text hs hn ht
   rw [hA] at this
   exact ⟨A, this.symm, hrest⟩
 
@@ -221,7 +203,7 @@ def exampleRe : Re :=
   .seq (.rep (.group 1 (.seq (.alt (.chr 97) (.rep (.cls false [.range 98 100]) .plus false)) .empty)) .star true)
     (.seq (.chr 120) (.seq (.backref 1) .empty))
 
-example : Supported exampleRe ∧ NonNullableBodies exampleRe ∧ NoNegDigit exampleRe ∧ codeLen exampleRe.toExpr ≠ 0 := by
+example : Supported exampleRe ∧ NonNullableBodies exampleRe ∧ codeLen exampleRe.toExpr ≠ 0 := by
   decide
 
 /-- its text: `(a|[b-d]+)*?x\1` -/
@@ -235,7 +217,7 @@ def exampleRe2 : Re :=
   .seq (.named [110] (.seq (.alt (.rep (.space false) (.between 2 3) false) .bol) .empty))
     (.seq .eol (.seq (.backrefNamed [110]) (.seq .dot .empty)))
 
-example : Supported exampleRe2 ∧ NonNullableBodies exampleRe2 ∧ NoNegDigit exampleRe2 := by decide
+example : Supported exampleRe2 ∧ NonNullableBodies exampleRe2 := by decide
 
 /-- `"ab x\n  bcdxbcd"` -/
 example : TextOK [97, 98, 32, 120, 10, 32, 32, 98, 99, 100, 120, 98, 99, 100] := by unfold TextOK; decide
@@ -255,7 +237,7 @@ example : ∃ msg, RegexParser.parse [97, 123] = .error msg :=
 #print axioms C14_parse_from
 #print axioms C14_total
 #print axioms C14_total_first
-#print axioms C14_sem_partial
+#print axioms C14_sem
 #print axioms C14_callfree
 #print axioms C14_regex_total
 #print axioms C14_vm_partial
